@@ -10,7 +10,6 @@ import (
 	"github.com/biogo/biogo/feat"
 	"github.com/biogo/biogo/seq"
 	"github.com/biogo/biogo/seq/linear"
-	"github.com/biogo/biogo/util"
 
 	"errors"
 	"fmt"
@@ -218,7 +217,7 @@ func (s *Seq) AppendEach(a [][]alphabet.QLetter) error {
 	if len(a) != s.Rows() {
 		return fmt.Errorf("alignment: number of sequences does not match Rows(): %d != %d.", len(a), s.Rows())
 	}
-	max := util.MinInt
+	max := 0
 	for _, ss := range a {
 		if l := len(ss); l > max {
 			max = l
